@@ -1,9 +1,22 @@
 ENGINES = [
+    {"name": "vsched (E1) + vinstr", "path": "/verif/engine/vsched", "serves_properties": ["C07", "C16", "C20"], "kind_free_text": "controlled cooperative scheduler over real goroutines with enabledness computed from channel/lock state, stateless DFS with iterative preemption bounding, replay with divergence detection; /verif/cmd/vinstr rewrites the current /repo sources (AST) to insert the scheduling points"},
     {"name": "venv (E3)", "path": "/verif/engine/venv", "serves_properties": ["C01"], "kind_free_text": "scripted crypto/rand.Reader + seeded CPRNG: every random draw is a choice point; executions with 0,1,2 deviations (min/max/short/error) are enumerated"},
     {"name": "vkit (E2)", "path": "/verif/engine/vkit", "serves_properties": ["C01", "C02", "C03", "C04", "C05", "C15", "C19"], "kind_free_text": "bounded exhaustive enumeration of inputs/alterations with stable case indices, sharding and measured coverage"},
 ]
 NOT_BUILT_REASON = {}
 META = {
+    "C16": {
+        "engine": "vsched (E1) + vinstr",
+        "technique": "stateless preemption-bounded exploration of the real worker/consumer code under a controlled scheduler (select readiness as data choices), scripted prime streams",
+        "text": "The stop protocol of key generation is explored on the real code: safeprime.GenerateConcurrent + generateSafePrimePair with 2 and 3 workers, six scripted prime streams chosen by residue class (refused p', same class, match; endless tail or failing random source), every interleaving of the instrumented channel operations up to the stated preemption bound. Verdicts: no panic, no deadlock, no thread alive at quiescence, returned pair satisfies the documented conditions.",
+        "note": "Schedules beyond the preemption bound and unfair infinite schedules (cut by an explicit step horizon, counted) are not covered. 16-bit primes stand for the real sizes (the protocol does not depend on size).",
+    },
+    "C20": {
+        "engine": "vsched (E1) + vinstr, separate -race pass",
+        "technique": "stateless preemption-bounded schedule exploration of the real code (credential cache, CPRNG reservation) + free-running race-detector pass over the same bodies",
+        "text": "One credential shared by 2-3 threads (prove with non-revocation, prepare cache, sequences of both; cold and warm cache) and the AES-CTR generator (2-3 threads, 1-2 reads of 1..200 bytes) are explored for every interleaving of their instrumented points (selects, lock, lazy-init field accesses, atomic reservation) up to 2 (thorough 3) preemptions; every proof must verify, no C_r/C_u/A or implied randomiser repeats, keystream intervals are disjoint, gap-free and respect real-time order. The race detector runs the same bodies free (2..64 goroutines).",
+        "note": "The -race pass is a detector over observed executions, not exhaustive. Key generation's concurrency is explored under C16 (shared harness). keyproof's worker pool is covered by the race pass only.",
+    },
     "C04": {
         "engine": "vkit (E2)",
         "technique": "exhaustive enumeration of all 2^k disclosure subsets x value rotations x session kinds, with exact key-set, value and leaf-scan oracles",
